@@ -68,9 +68,11 @@ def _index_while(var, lo, hi, prelude_lets, inner):
 
 def R3(body, ctx):
     """`for (I, X) in V.iter().enumerate() { body }`
-    -> `let mut I_ = 0; while I_ < V.len() { let I = I_; let X = &V[I]; I_ += 1; body }`"""
+    -> `let mut I_ = 0; while I_ < V.len() { let I = I_; let X = &V[I]; I_ += 1; body }`
+    V is a path `a.b.c`; a receiver that ends in a call (`model.properties()`) is evaluated once, as `for`
+    does, into `let en_ = V;` first."""
     mask = code_mask(body)
-    rx = re.compile(r'for\s*\(\s*(%s)\s*,\s*(%s)\s*\)\s*in\s+(%s(?:\.%s)*)\.iter\(\)\.enumerate\(\)\s*\{' % (IDENT, IDENT, IDENT, IDENT))
+    rx = re.compile(r'for\s*\(\s*(%s)\s*,\s*(%s)\s*\)\s*in\s+(%s(?:\.%s)*(?:\(\))?)\.iter\(\)\.enumerate\(\)\s*\{' % (IDENT, IDENT, IDENT, IDENT))
     n = 0
     while True:
         m = _first_code_match(rx, body, mask)
@@ -80,9 +82,13 @@ def R3(body, ctx):
         ob = m.end() - 1
         cb = match_close(body, ob, mask)
         inner = body[ob + 1:cb]
+        pre = ''
+        if v.endswith('()'):
+            pre = 'let en_ = %s;\n        ' % v
+            v = 'en_'
         if re.search(r'(?<![A-Za-z0-9_.])' + re.escape(v) + r'\s*(=(?!=)|\.(push|pop|clear|insert|remove|truncate)\()', inner):
             raise LostAnchor('R3: `%s` is modified inside the loop' % v)
-        body = body[:m.start()] + _index_while(i, '0', v + '.len()', '\n            let %s = &%s[%s];' % (x, v, i), inner) + body[cb:]
+        body = body[:m.start()] + pre + _index_while(i, '0', v + '.len()', '\n            let %s = &%s[%s];' % (x, v, i), inner) + body[cb:]
         mask = code_mask(body)
         n += 1
     return body, n
